@@ -21,9 +21,9 @@ RULE = (
     "cycle index, same target as the previous cycle?)."
 )
 SHARDS = {"quick": 16, "thorough": 16}
-TIMEOUT = {"quick": 400, "thorough": 3600}
+TIMEOUT = {"quick": 400, "thorough": 7200}
 MIN_EVALS = {"quick": 1500, "thorough": 40000}
-CASES = {"quick": 60, "thorough": 1800}
+CASES = {"quick": 60, "thorough": 5000}
 ASSUMPTIONS = [
     "the only in-memory change save() may make is the meta:generator stamp (compared modulo that element) and the manifest.rdf reconciliation documented in _check_manifest_rdf",
     "directory entries of the zip carry no content: non-leaf directory entries may be dropped by a folder cycle",
